@@ -1343,10 +1343,14 @@ impl HelperAttributes {
         kinds: &HelperAttributeKinds,
     ) -> Result<Self> {
         let items = if kinds.derive_ex {
-            DeriveEntry::from_args_list(&parse_derive_ex_attrs(attrs)?)?
-                .into_iter()
-                .map(|x| (x.kind, x))
-                .collect()
+            let mut items = HashMap::new();
+            for x in DeriveEntry::from_args_list(&parse_derive_ex_attrs(attrs)?)? {
+                let (kind, span) = (x.kind, x.span);
+                if items.insert(kind, x).is_some() {
+                    bail!(span, "`{}` was specified twice", kind);
+                }
+            }
+            items
         } else {
             HashMap::new()
         };
